@@ -1,3 +1,4 @@
+import WS.Lemmas.WriterMore
 import WS.Lemmas.MaskTrunc
 import WS.Lemmas.Mask
 import WS.Lemmas.Codec
@@ -40,5 +41,21 @@ theorem frame_roundtrip (isServer : Bool) (b0 : Nat) (key : Key) (payload rest :
 /-- non-vacuity: a masked 5-byte frame with an extreme key -/
 example : Spec.decodeFrame (Codec.encode false 130 ⟨255, 0, 255, 0⟩ [1, 2, 3, 4, 5]) =
     some (Codec.frameOf false 130 ⟨255, 0, 255, 0⟩ [1, 2, 3, 4, 5], []) := by decide
+
+open WS.Content WS.WriterMore in
+/-- accepted (control messages): the constructor always makes room for a control frame (repair of F4) … -/
+theorem newW_fits_control (isServer : Bool) (size : Int) (pool nego : Bool) :
+    maxFrameHeaderSize + 125 ≤ (newW isServer size pool nego).wbufLen := by
+  first | exact WriterMore.newW_fits_control .. | (apply WriterMore.newW_fits_control <;> assumption)
+
+open WS.Content WS.WriterMore in
+/-- … so a ping/pong of at most 125 bytes through WriteMessage is accepted and is exactly one control
+    frame with that payload, client or server -/
+theorem writeMessage_control_roundtrip (s : W) (hi : Idle s) (hcap : maxFrameHeaderSize + 125 ≤ s.wbufLen)
+    (t : Nat) (ht : t = 9 ∨ t = 10) (data : Bytes) (hd : data.length ≤ 125) :
+    (writeMessage s t data).1 = none ∧ Idle (writeMessage s t data).2 ∧
+    wireMessages (writeMessage s t data).2 = wireMessages s ∧
+    wireControls (writeMessage s t data).2 = wireControls s ++ [(t, data)] := by
+  first | exact WriterMore.writeMessage_control_roundtrip .. | (apply WriterMore.writeMessage_control_roundtrip <;> assumption)
 
 end WS.Props.C01
